@@ -171,4 +171,576 @@ theorem write_ext (style : Style) (buf w : Str) (hw : wordOK w = true) :
           · exact hrU x hx
         · intro _; exact ⟨_, rfl, hcUL, fun _ => hcU⟩
 
+/-! ### one loop iteration -/
+
+theorem alnum_upper_ident (r : Nat) (h : isAlnum r = true) :
+    isIdentChar (toUpperA r) = true ∧ toUpperA r ≠ 95 ∧ (isDigitA (toUpperA r) = isDigitA r) := by
+  simp [isAlnum, isLowerA, isUpperA, isDigitA] at h
+  refine ⟨?_, ?_, ?_⟩
+  · rw [identChar_iff]; unfold toUpperA; split <;> omega
+  · unfold toUpperA; split <;> omega
+  · rw [Bool.eq_iff_iff]; unfold toUpperA isDigitA; split <;> simp <;> omega
+
+theorem alnum_lower_ident (r : Nat) (h : isAlnum r = true) :
+    isIdentChar (toLowerA r) = true ∧ toLowerA r ≠ 95 ∧ (isDigitA (toLowerA r) = isDigitA r) := by
+  simp [isAlnum, isLowerA, isUpperA, isDigitA] at h
+  refine ⟨?_, ?_, ?_⟩
+  · rw [identChar_iff]; unfold toLowerA; split <;> omega
+  · unfold toLowerA; split <;> omega
+  · rw [Bool.eq_iff_iff]; unfold toLowerA isDigitA; split <;> simp <;> omega
+
+theorem ext2 (buf : Str) (x : Nat) (hx : isIdentChar x = true) :
+    ∃ ext, buf ++ [95] ++ [x] = buf ++ ext ∧ ExtOK buf ext ∧ ext ≠ [] ∧
+      (buf = [] → 2 ≤ ext.length ∨ ∃ c, ext.head? = some c ∧ c ≠ 95) ∧ True := by
+  refine ⟨[95, x], by simp, ⟨?_, ?_⟩, by simp, fun _ => Or.inl (by simp), trivial⟩
+  · intro c hc
+    simp at hc
+    rcases hc with rfl | rfl
+    · decide
+    · exact hx
+  · intro _ c hc
+    simp at hc; subst hc; decide
+
+theorem ext1 (buf : Str) (x : Nat) (hx : isIdentChar x = true) (h95 : x ≠ 95)
+    (hd : buf = [] → isDigitA x = false) :
+    ∃ ext, buf ++ [x] = buf ++ ext ∧ ExtOK buf ext ∧ ext ≠ [] ∧
+      (buf = [] → 2 ≤ ext.length ∨ ∃ c, ext.head? = some c ∧ c ≠ 95) ∧ True := by
+  refine ⟨[x], rfl, ⟨?_, ?_⟩, by simp, fun _ => Or.inr ⟨x, rfl, h95⟩, trivial⟩
+  · intro c hc
+    simp at hc; subst hc; exact hx
+  · intro hb c hc
+    simp at hc; subst hc; exact hd hb
+
+theorem step_alnum (name : Str) (style : Style) (q : Bool) (st : St) (ri : Nat × Nat)
+    (h : isAlnum ri.1 = true) :
+    ∃ ext, (step name style q st ri).buf = st.buf ++ ext ∧ ExtOK st.buf ext ∧ ext ≠ [] ∧
+      (st.buf = [] → 2 ≤ ext.length ∨ ∃ c, ext.head? = some c ∧ c ≠ 95) ∧
+      (step name style q st ri).cont = true := by
+  obtain ⟨hu1, hu2, hu3⟩ := alnum_upper_ident _ h
+  obtain ⟨hl1, hl2, hl3⟩ := alnum_lower_ident _ h
+  unfold step
+  simp only [h, if_true]
+  split <;> split
+  all_goals split
+  all_goals first
+    | exact ext2 _ _ hl1
+    | exact ext2 _ _ hu1
+    | exact ext1 _ _ hl1 hl2 (by intro hb; simp_all)
+    | exact ext1 _ _ hu1 hu2 (by intro hb; simp_all)
+
+theorem letter_not95 (c : Nat) (h : isLetterA c = true) : c ≠ 95 ∧ isDigitA c = false := by
+  simp [isLetterA, isLowerA, isUpperA] at h
+  simp [isDigitA]; omega
+
+/-- every iteration appends identifier characters; it appends at least one in quoted names and for
+letters/digits; from the empty buffer, a letter/digit or (in quotes) a non-underscore leaves the buffer
+neither empty nor `_`. -/
+theorem step_ext (name : Str) (style : Style) (q : Bool) (st : St) (ri : Nat × Nat) :
+    ∃ ext, (step name style q st ri).buf = st.buf ++ ext ∧ ExtOK st.buf ext ∧
+      (q = true → ext ≠ []) ∧
+      ((isAlnum ri.1 = true ∨ (q = true ∧ ri.1 ≠ 95)) →
+        ext ≠ [] ∧ (st.buf = [] → 2 ≤ ext.length ∨ ∃ c, ext.head? = some c ∧ c ≠ 95)) := by
+  by_cases h : isAlnum ri.1 = true
+  · obtain ⟨ext, h1, h2, h3, h4, _⟩ := step_alnum name style q st ri h
+    exact ⟨ext, h1, h2, fun _ => h3, fun _ => ⟨h3, h4⟩⟩
+  · have h' : isAlnum ri.1 = false := by simpa using h
+    cases q with
+    | false =>
+      unfold step
+      simp only [h', Bool.false_eq_true, if_false, Bool.not_false, if_true]
+      split
+      · refine ⟨[95], rfl, ⟨?_, ?_⟩, by simp, by simp⟩
+        · intro c hc; simp at hc; subst hc; decide
+        · intro _ c hc; simp at hc; subst hc; decide
+      · exact ⟨[], by simp, ⟨by simp, by simp⟩, by simp, by simp⟩
+    | true =>
+      unfold step
+      simp only [h', Bool.false_eq_true, if_false, Bool.not_true]
+      split
+      · next h95 =>
+        refine ⟨[95], rfl, ⟨?_, ?_⟩, by simp, by simp [h95]⟩
+        · intro c hc; simp at hc; subst hc; decide
+        · intro _ c hc; simp at hc; subst hc; decide
+      · obtain ⟨ext, e1, e2, e3, e4⟩ := write_ext style st.buf (wordOf ri.1) (wordOf_ok _)
+        refine ⟨ext, e1, ⟨e3, ?_⟩, fun _ => e2, fun _ => ⟨e2, ?_⟩⟩
+        · intro hb c hc
+          obtain ⟨d, hd, hl, _⟩ := e4 hb
+          rw [hd] at hc; cases hc
+          exact (letter_not95 _ hl).2
+        · intro hb
+          obtain ⟨d, hd, hl, _⟩ := e4 hb
+          exact Or.inr ⟨d, hd, (letter_not95 _ hl).1⟩
+
+theorem step_inv (name : Str) (style : Style) (q : Bool) (st : St) (ri : Nat × Nat)
+    (h : Inv st.buf) : Inv (step name style q st ri).buf := by
+  obtain ⟨ext, e1, e2, _, _⟩ := step_ext name style q st ri
+  rw [e1]; exact inv_append h e2
+
+theorem step_solid (name : Str) (style : Style) (q : Bool) (st : St) (ri : Nat × Nat)
+    (h : Solid st.buf) : Solid (step name style q st ri).buf := by
+  obtain ⟨ext, e1, e2, _, _⟩ := step_ext name style q st ri
+  rw [e1]; exact solid_append h e2
+
+theorem step_trigger (name : Str) (style : Style) (q : Bool) (st : St) (ri : Nat × Nat)
+    (h : Inv st.buf) (ht : isAlnum ri.1 = true ∨ (q = true ∧ ri.1 ≠ 95)) :
+    Solid (step name style q st ri).buf := by
+  obtain ⟨ext, e1, e2, _, e4⟩ := step_ext name style q st ri
+  obtain ⟨hne, h5⟩ := e4 ht
+  rw [e1]
+  refine ⟨inv_append h e2, ?_⟩
+  cases hb : st.buf with
+  | nil =>
+    rcases h5 hb with h5 | ⟨c, hc, h95⟩
+    · left; simpa using h5
+    · right; exact ⟨c, by simpa using hc, h95⟩
+  | cons b rest =>
+    left
+    cases ext with
+    | nil => exact absurd rfl hne
+    | cons e ext => simp; omega
+
+theorem foldl_inv (name : Str) (style : Style) (q : Bool) (l : List (Nat × Nat)) (st : St)
+    (h : Inv st.buf) : Inv (l.foldl (step name style q) st).buf := by
+  induction l generalizing st with
+  | nil => exact h
+  | cons x l ih => exact ih _ (step_inv name style q st x h)
+
+theorem foldl_solid (name : Str) (style : Style) (q : Bool) (l : List (Nat × Nat)) (st : St)
+    (h : Solid st.buf) : Solid (l.foldl (step name style q) st).buf := by
+  induction l generalizing st with
+  | nil => exact h
+  | cons x l ih => exact ih _ (step_solid name style q st x h)
+
+theorem foldl_trigger (name : Str) (style : Style) (q : Bool) (l : List (Nat × Nat)) (st : St)
+    (h : Inv st.buf) (ht : ∃ x ∈ l, isAlnum x.1 = true ∨ (q = true ∧ x.1 ≠ 95)) :
+    Solid (l.foldl (step name style q) st).buf := by
+  induction l generalizing st with
+  | nil => obtain ⟨x, hx, _⟩ := ht; cases hx
+  | cons y l ih =>
+    by_cases hy : isAlnum y.1 = true ∨ (q = true ∧ y.1 ≠ 95)
+    · exact foldl_solid name style q l _ (step_trigger name style q st y h hy)
+    · obtain ⟨x, hx, hxt⟩ := ht
+      rcases List.mem_cons.1 hx with rfl | hx
+      · exact absurd hxt hy
+      · exact ih _ (step_inv name style q st y h) ⟨x, hx, hxt⟩
+
+theorem foldl_len (name : Str) (style : Style) (l : List (Nat × Nat)) (st : St) :
+    st.buf.length + l.length ≤ (l.foldl (step name style true) st).buf.length := by
+  induction l generalizing st with
+  | nil => simp
+  | cons x l ih =>
+    obtain ⟨ext, e1, _, e3, _⟩ := step_ext name style true st x
+    have hne := e3 rfl
+    have := ih (step name style true st x)
+    rw [e1] at this
+    simp only [List.foldl_cons, List.length_cons]
+    cases ext with
+    | nil => exact absurd rfl hne
+    | cons e ext => simp at this; omega
+
+/-! ### decoding -/
+
+theorem decodeRune_ascii (b : Nat) (bs : Str) (h : b < 128) : decodeRune (b :: bs) = (b, 1) := by
+  simp [decodeRune, h]
+
+theorem decodeRune_big (b : Nat) (bs : Str) (h : ¬ b < 128) : 128 ≤ (decodeRune (b :: bs)).1 := by
+  rcases bs with _ | ⟨b1, _ | ⟨b2, _ | ⟨b3, bs⟩⟩⟩ <;>
+    simp only [decodeRune, runeError, isContB, h, if_false, apply_ite Prod.fst, decide_eq_true_eq] <;>
+    (repeat' split) <;> omega
+
+theorem decodeRune_small (b : Nat) (bs : Str) (h : (decodeRune (b :: bs)).1 < 128) :
+    decodeRune (b :: bs) = (b, 1) := by
+  by_cases hb : b < 128
+  · exact decodeRune_ascii b bs hb
+  · have := decodeRune_big b bs hb; omega
+
+theorem runes_cons (b : Nat) (bs : Str) :
+    runes (b :: bs) = ((decodeRune (b :: bs)).1, 0) ::
+      runesAux bs.length (0 + (decodeRune (b :: bs)).2) ((b :: bs).drop (decodeRune (b :: bs)).2) := by
+  simp [runes, runesAux]
+
+theorem runesAux_ne_nil (fuel i : Nat) (b : Nat) (bs : Str) : runesAux (fuel + 1) i (b :: bs) ≠ [] := by
+  simp [runesAux]
+
+/-- a name without bytes ≥ 0x80 is iterated byte by byte -/
+theorem runesAux_ascii (s : Str) (h : ∀ b ∈ s, b < 128) (fuel i : Nat) (hf : s.length ≤ fuel) :
+    (runesAux fuel i s).map (·.1) = s := by
+  induction s generalizing fuel i with
+  | nil => cases fuel <;> simp [runesAux]
+  | cons b bs ih =>
+    cases fuel with
+    | zero => simp at hf
+    | succ fuel =>
+      have hb : b < 128 := h b (by simp)
+      simp only [runesAux, decodeRune_ascii b bs hb, List.map_cons, List.drop_succ_cons, List.drop_zero]
+      rw [ih (fun x hx => h x (by simp [hx])) fuel (i + 1) (by simpa using hf)]
+
+theorem runes_ascii (s : Str) (h : ∀ b ∈ s, b < 128) : (runes s).map (·.1) = s :=
+  runesAux_ascii s h _ _ (Nat.le_refl _)
+
+/-! ### quoted names -/
+
+theorem prefixOf_facts (name : Str) (style : Style) :
+    (prefixOf name style = [] ∧ (name.length = 1 → (charName (decodeRune name).1).isSome = true)) ∨
+      Solid (prefixOf name style) := by
+  unfold prefixOf
+  dsimp only
+  split
+  · split
+    · right
+      obtain ⟨ext, e1, e2, e3, e4⟩ := write_ext style [] (cs ['c','h','a','r']) (by decide)
+      obtain ⟨c, hc, hl, _⟩ := e4 rfl
+      have hs : Solid (write style [] (cs ['c','h','a','r'])) := by
+        rw [e1]
+        refine ⟨⟨by simpa using e3, ?_⟩, Or.inr ⟨c, by simpa using hc, (letter_not95 c hl).1⟩⟩
+        intro d hd
+        have : d = c := by simp at hd; rw [hc] at hd; cases hd; rfl
+        subst this; exact (letter_not95 _ hl).2
+      split
+      · refine solid_append hs ⟨?_, ?_⟩
+        · intro c hc; simp at hc; subst hc; decide
+        · intro hb; rw [hb] at hs; simp [Solid] at hs
+      · exact hs
+    · next h =>
+      left; refine ⟨rfl, fun _ => ?_⟩
+      cases hc : charName (decodeRune name).1 with
+      | none => simp [hc] at h
+      | some w => rfl
+  · next h => left; exact ⟨rfl, fun h1 => absurd h1 h⟩
+
+theorem quoted_core (name : Str) (style : Style) (hne : name ≠ []) :
+    Solid ((runes name).foldl (step name style true) ⟨prefixOf name style, false⟩).buf := by
+  rcases prefixOf_facts name style with ⟨hp, hlen⟩ | hs
+  · rw [hp]
+    cases name with
+    | nil => exact absurd rfl hne
+    | cons b bs =>
+      rw [runes_cons]
+      by_cases ht : isAlnum (decodeRune (b :: bs)).1 = true ∨ (decodeRune (b :: bs)).1 ≠ 95
+      · apply foldl_trigger _ _ _ _ _ inv_nil
+        refine ⟨_, List.mem_cons_self, ?_⟩
+        rcases ht with ht | ht
+        · exact Or.inl ht
+        · exact Or.inr ⟨rfl, ht⟩
+      · have h95 : (decodeRune (b :: bs)).1 = 95 := by
+          by_cases h : (decodeRune (b :: bs)).1 = 95
+          · exact h
+          · exact absurd (Or.inr h) ht
+        have hd := decodeRune_small b bs (by omega)
+        have hb : b = 95 := by rw [hd] at h95; exact h95
+        cases bs with
+        | nil =>
+          have := hlen rfl
+          rw [h95] at this
+          exact absurd this (by decide)
+        | cons b' bs' =>
+          rw [hd]
+          simp only [List.drop_succ_cons, List.drop_zero, List.length_cons, runesAux]
+          refine ⟨foldl_inv _ _ _ _ _ inv_nil, Or.inl ?_⟩
+          refine Nat.le_trans ?_ (foldl_len _ _ _ _)
+          simp
+  · exact foldl_solid _ _ _ _ _ hs
+
+theorem produce_quoted (name0 : Str) (style : Style) (h : looksQuoted name0 = true) :
+    validIdent (produce name0 style) = true := by
+  have hlen : 2 < name0.length := by
+    simp only [looksQuoted, Bool.and_eq_true, decide_eq_true_eq] at h; exact h.1
+  unfold produce
+  simp only [h, if_true]
+  split
+  · decide
+  · apply solid_valid
+    apply quoted_core
+    have h1 : ((name0.drop 1).take (name0.length - 2)).length = name0.length - 2 := by
+      simp; omega
+    split
+    · next hc =>
+      intro hnil
+      have := congrArg List.length hnil
+      simp only [List.length_drop, h1, List.length_nil] at this
+      have h2 := hc.1
+      rw [h1] at h2
+      omega
+    · intro hnil
+      have := congrArg List.length hnil
+      rw [h1] at this
+      simp at this; omega
+
+/-! ### unquoted names -/
+
+theorem idMid_cases (b : Nat) (h : isIdMid b = true) : b < 128 ∧ (isAlnum b = true ∨ b = 95 ∨ b = 45) := by
+  simp [isIdMid, isLetterA, isLowerA, isUpperA, isDigitA] at h
+  simp [isAlnum, isLowerA, isUpperA, isDigitA]
+  omega
+
+theorem isID_facts (name : Str) (h : isID name = true) :
+    (∀ b ∈ name, isIdMid b = true) ∧ looksQuoted name = false := by
+  cases name with
+  | nil => simp [isID] at h
+  | cons b rest =>
+    simp only [isID, Bool.and_eq_true, List.all_eq_true] at h
+    obtain ⟨⟨hs, hm⟩, _⟩ := h
+    have hb : isIdMid b = true ∧ b ≠ 39 ∧ b ≠ 34 := by
+      simp [isIdStart, isLetterA, isLowerA, isUpperA] at hs
+      simp [isIdMid, isLetterA, isLowerA, isUpperA, isDigitA]
+      omega
+    refine ⟨?_, ?_⟩
+    · intro x hx
+      rcases List.mem_cons.1 hx with rfl | hx
+      · exact hb.1
+      · exact hm x hx
+    · simp [looksQuoted, hb.2.1, hb.2.2]
+
+theorem step_plain (name : Str) (style : Style) (st : St) (ri : Nat × Nat)
+    (h : ri.1 = 95 ∨ ri.1 = 45) :
+    (step name style false st ri).buf =
+      if ri.1 = 95 ∧ style = .upperCase then st.buf ++ [95] else st.buf := by
+  have ha : isAlnum ri.1 = false := by
+    rcases h with h | h <;> rw [h] <;> decide
+  unfold step
+  simp only [ha, Bool.false_eq_true, if_false, Bool.not_false, if_true]
+  have h36 : ri.1 ≠ 36 := by omega
+  simp only [h36, false_or]
+  split <;> rfl
+
+theorem foldl_plain (name : Str) (style : Style) (l : List (Nat × Nat)) (st : St)
+    (h : ∀ x ∈ l, x.1 = 95 ∨ x.1 = 45) :
+    (l.foldl (step name style false) st).buf =
+      st.buf ++ List.replicate (if style = .upperCase then (l.map (·.1)).count 95 else 0) 95 := by
+  induction l generalizing st with
+  | nil => simp
+  | cons x l ih =>
+    have hx := h x (by simp)
+    rw [List.foldl_cons, ih _ (fun y hy => h y (by simp [hy])), step_plain name style st x hx]
+    by_cases hu : style = .upperCase
+    · rcases hx with hx | hx
+      · simp only [hx, hu, and_self, if_true, List.map_cons, List.count_cons_self, List.append_assoc]
+        rw [show [95] ++ List.replicate (List.count 95 (List.map (·.1) l)) 95 =
+              List.replicate (List.count 95 (List.map (·.1) l) + 1) 95 from by
+            rw [List.replicate_succ]; rfl]
+      · have : x.1 ≠ 95 := by omega
+        simp [hx, hu]
+    · simp [hu]
+
+theorem step_len_mono (name : Str) (style : Style) (q : Bool) (st : St) (ri : Nat × Nat) :
+    st.buf.length ≤ (step name style q st ri).buf.length := by
+  obtain ⟨ext, e1, _⟩ := step_ext name style q st ri
+  rw [e1]; simp
+
+theorem step_us (name : Str) (st : St) (ri : Nat × Nat) (h : ri.1 = 95) :
+    (step name .upperCase false st ri).buf = st.buf ++ [95] := by
+  rw [step_plain name .upperCase st ri (Or.inl h)]; simp [h]
+
+theorem foldl_count (name : Str) (l : List (Nat × Nat)) (st : St) :
+    st.buf.length + (l.map (·.1)).count 95 ≤ (l.foldl (step name .upperCase false) st).buf.length := by
+  induction l generalizing st with
+  | nil => simp
+  | cons x l ih =>
+    have := ih (step name .upperCase false st x)
+    by_cases hx : x.1 = 95
+    · rw [step_us name st x hx] at this
+      simp only [List.length_append, List.length_singleton] at this
+      simp only [List.foldl_cons, List.map_cons, hx, List.count_cons_self]
+      omega
+    · have hm := step_len_mono name .upperCase false st x
+      simp only [List.foldl_cons, List.map_cons, List.count_cons]
+      have : (x.1 == 95) = false := by simpa using hx
+      simp only [this]
+      simp at *
+      omega
+
+
+theorem produce_id_valid (name : Str) (style : Style) (hid : isID name = true)
+    (hg : name.any isAlnum = true ∨ (style = .upperCase ∧ 2 ≤ name.count 95)) :
+    validIdent (produce name style) = true := by
+  obtain ⟨hmid, hq⟩ := isID_facts name hid
+  have hascii : ∀ b ∈ name, b < 128 := fun b hb => (idMid_cases b (hmid b hb)).1
+  have hmap := runes_ascii name hascii
+  unfold produce
+  simp only [hq, Bool.false_eq_true, if_false]
+  apply solid_valid
+  rcases hg with hg | ⟨hu, hc⟩
+  · obtain ⟨b, hb, hab⟩ := List.any_eq_true.1 hg
+    rw [← hmap] at hb
+    obtain ⟨x, hx, rfl⟩ := List.mem_map.1 hb
+    exact foldl_trigger _ _ _ _ _ inv_nil ⟨x, hx, Or.inl hab⟩
+  · subst hu
+    refine ⟨foldl_inv _ _ _ _ _ inv_nil, Or.inl ?_⟩
+    have := foldl_count name (runes name) ⟨[], false⟩
+    rw [hmap] at this
+    simp only [List.length_nil, Nat.zero_add] at this
+    omega
+
+theorem produce_id_invalid (name : Str) (style : Style) (hid : isID name = true)
+    (hna : name.any isAlnum = false) (hc : ¬ (style = .upperCase ∧ 2 ≤ name.count 95)) :
+    validIdent (produce name style) = false := by
+  obtain ⟨hmid, hq⟩ := isID_facts name hid
+  have hascii : ∀ b ∈ name, b < 128 := fun b hb => (idMid_cases b (hmid b hb)).1
+  have hmap := runes_ascii name hascii
+  have hplain : ∀ x ∈ runes name, x.1 = 95 ∨ x.1 = 45 := by
+    intro x hx
+    have hxn : x.1 ∈ name := by rw [← hmap]; exact List.mem_map_of_mem hx
+    rcases (idMid_cases _ (hmid _ hxn)).2 with h | h
+    · have := List.any_eq_false.1 hna _ hxn
+      rw [h] at this; exact absurd rfl this
+    · exact h
+  unfold produce
+  simp only [hq, Bool.false_eq_true, if_false]
+  rw [foldl_plain name style (runes name) ⟨[], false⟩ hplain, hmap]
+  simp only [List.nil_append]
+  by_cases hu : style = .upperCase
+  · simp only [hu, if_true]
+    have : name.count 95 = 0 ∨ name.count 95 = 1 := by
+      have h3 : ¬ 2 ≤ name.count 95 := fun h2 => hc ⟨hu, h2⟩
+      omega
+    rcases this with h | h <;> rw [h] <;> rfl
+  · simp only [hu, if_false]; rfl
+
+/-! ### quoted spellings -/
+
+theorem quotedBody_last (q : Nat) (s : Str) (h : quotedBody q s = true) : s.getLast? = some q := by
+  fun_induction quotedBody q s with
+  | case1 => simp at h
+  | case2 b => simp at h; simp [h]
+  | case3 b2 rest ih =>
+    simp only [Bool.and_eq_true] at h
+    have := ih h.2
+    cases rest with
+    | nil => simp [quotedBody] at h
+    | cons c rest => simpa using this
+  | case4 => simp at h
+  | case5 b b2 rest _ _ ih => simpa using ih h
+
+theorem isQuoted_facts (q : Nat) (name : Str) (hq : q = 39 ∨ q = 34) (h : isQuoted q name = true) :
+    looksQuoted name = true ∨ name = [q, q] := by
+  cases name with
+  | nil => simp [isQuoted] at h
+  | cons b rest =>
+    simp only [isQuoted, Bool.and_eq_true, beq_iff_eq] at h
+    obtain ⟨rfl, hb⟩ := h
+    have hl := quotedBody_last b rest hb
+    cases rest with
+    | nil => simp [quotedBody] at hb
+    | cons c rest =>
+      cases rest with
+      | nil => simp [quotedBody] at hb; right; rw [hb]
+      | cons d rest =>
+        left
+        have : (b :: c :: d :: rest).getLast? = some b := by simpa using hl
+        rcases hq with rfl | rfl <;> simp [looksQuoted, this]
+
+/-! ### the first character is not a lower-case letter (styles other than CamelLower) -/
+
+theorem toUpperA_not_lower (r : Nat) : isLowerA (toUpperA r) = false := by
+  unfold toUpperA isLowerA; split <;> simp <;> omega
+
+theorem step_alnum_head (name : Str) (style : Style) (q : Bool) (st : St) (ri : Nat × Nat)
+    (h : isAlnum ri.1 = true) (hb : st.buf = []) (hc : st.cont = false) (hs : style ≠ .camelLower) :
+    ∀ c, (step name style q st ri).buf.head? = some c → isLowerA c = false := by
+  have hu := toUpperA_not_lower ri.1
+  unfold step
+  simp only [h, hb, hc, if_true]
+  cases style
+  · simp; split <;> simp [hu] <;> decide
+  · exact absurd rfl hs
+  · simp; split <;> simp [hu] <;> decide
+  · simp; split <;> simp [hu] <;> decide
+
+/-- `cont` is only set once something was written, and the buffer does not start with a lower-case letter -/
+def HeadInv (st : St) : Prop :=
+  (st.cont = true → st.buf ≠ []) ∧ (∀ c, st.buf.head? = some c → isLowerA c = false)
+
+theorem upper_not_lower (c : Nat) (h : isUpperA c = true) : isLowerA c = false := by
+  simp [isUpperA] at h; simp [isLowerA]; omega
+
+theorem step_headInv (name : Str) (style : Style) (q : Bool) (st : St) (ri : Nat × Nat)
+    (hs : style ≠ .camelLower) (h : HeadInv st) : HeadInv (step name style q st ri) := by
+  obtain ⟨ext, e1, _, e3, e4⟩ := step_ext name style q st ri
+  have head_keep : st.buf ≠ [] → ∀ c, (step name style q st ri).buf.head? = some c → isLowerA c = false := by
+    intro hb c hc
+    rw [e1] at hc
+    cases hbuf : st.buf with
+    | nil => exact absurd hbuf hb
+    | cons b rest => rw [hbuf] at hc; exact h.2 c (by rw [hbuf]; simpa using hc)
+  by_cases ha : isAlnum ri.1 = true
+  · refine ⟨fun _ => ?_, ?_⟩
+    · rw [e1]; have := (e4 (Or.inl ha)).1
+      cases ext with
+      | nil => exact absurd rfl this
+      | cons _ _ => simp
+    · by_cases hb : st.buf = []
+      · have hc : st.cont = false := by
+          cases hcc : st.cont with
+          | false => rfl
+          | true => exact absurd hb (h.1 hcc)
+        exact step_alnum_head name style q st ri ha hb hc hs
+      · exact head_keep hb
+  · have ha' : isAlnum ri.1 = false := by simpa using ha
+    by_cases hb : st.buf = []
+    · cases q with
+      | false =>
+        unfold step
+        simp only [ha', Bool.false_eq_true, if_false, Bool.not_false, if_true, hb]
+        split
+        · exact ⟨by simp, by intro c hc; simp at hc; subst hc; decide⟩
+        · exact ⟨by simp, by simp⟩
+      | true =>
+        unfold step
+        simp only [ha', Bool.false_eq_true, if_false, Bool.not_true, hb]
+        split
+        · exact ⟨by simp, by intro c hc; simp at hc; subst hc; decide⟩
+        · obtain ⟨ext, w1, w2, _, w4⟩ := write_ext style [] (wordOf ri.1) (wordOf_ok _)
+          obtain ⟨c, hc, _, hup⟩ := w4 rfl
+          refine ⟨by simp, ?_⟩
+          intro d hd
+          rw [w1] at hd
+          simp only [List.nil_append] at hd
+          rw [hc] at hd; cases hd
+          exact upper_not_lower _ (hup hs)
+    · refine ⟨fun _ => ?_, head_keep hb⟩
+      rw [e1]
+      cases hbuf : st.buf with
+      | nil => exact absurd hbuf hb
+      | cons _ _ => simp
+
+theorem foldl_headInv (name : Str) (style : Style) (q : Bool) (l : List (Nat × Nat)) (st : St)
+    (hs : style ≠ .camelLower) (h : HeadInv st) : HeadInv (l.foldl (step name style q) st) := by
+  induction l generalizing st with
+  | nil => exact h
+  | cons x l ih => exact ih _ (step_headInv name style q st x hs h)
+
+theorem prefixOf_head (name : Str) (style : Style) (hs : style ≠ .camelLower) :
+    ∀ c, (prefixOf name style).head? = some c → isLowerA c = false := by
+  unfold prefixOf
+  dsimp only
+  split
+  · split
+    · obtain ⟨ext, w1, w2, _, w4⟩ := write_ext style [] (cs ['c','h','a','r']) (by decide)
+      obtain ⟨c, hc, _, hup⟩ := w4 rfl
+      have : ∀ d, (write style [] (cs ['c','h','a','r'])).head? = some d → isLowerA d = false := by
+        intro d hd
+        rw [w1] at hd; simp only [List.nil_append] at hd
+        rw [hc] at hd; cases hd
+        exact upper_not_lower _ (hup hs)
+      split
+      · intro d hd
+        apply this d
+        rw [w1] at hd ⊢
+        cases ext with
+        | nil => exact absurd rfl w2
+        | cons e ext => simpa using hd
+      · exact this
+    · simp
+  · simp
+
+theorem produce_head (name0 : Str) (style : Style) (hs : style ≠ .camelLower) :
+    ∀ c, (produce name0 style).head? = some c → isLowerA c = false := by
+  unfold produce
+  split
+  · dsimp only
+    split
+    · intro c hc; simp at hc; subst hc; decide
+    · exact (foldl_headInv _ style true _ _ hs ⟨by simp, prefixOf_head _ style hs⟩).2
+  · exact (foldl_headInv _ style false _ _ hs ⟨by simp, by simp⟩).2
+
 end TmVerif.Ident
